@@ -1067,7 +1067,11 @@ def post_case(item):
                                                  update_hashes=False))
             m = Meter("C")
             p.world.meter = m
-            o = p.read("C", None, 0)
+            for _ in range(5):
+                o = p.read("C", None, 0)
+                if o.status != "ok" or not (p.world.s2c.buf or
+                                            p.c.sock._read_buffer):
+                    break
             res["n"] += 1
             sig, fails = judge(p, {"C": o if o.status != "stall" else
                                    W.Outcome("ok")}, "C", m, 4000, len(newb))
